@@ -958,7 +958,8 @@ impl Shadow {
                     let cur = if tmp { (if a[0] == "read" { libc::O_RDONLY } else { libc::O_RDWR }) as u32 } else { let i: usize = a[2].parse().unwrap(); self.hflags[i] };
                     if cur != want {
                         // reference: under writeback the descriptor never carries O_APPEND (the client kernel owns it), exactly as at open
-                        let r = unsafe { libc::fcntl(fd, libc::F_SETFL, self.wb_flags(want as i32)) };
+                        // ... and never O_DIRECT (allow_direct_io is off: open strips it)
+                        let r = unsafe { libc::fcntl(fd, libc::F_SETFL, self.wb_flags(want as i32) & !libc::O_DIRECT) };
                         if r != 0 {
                             let c = last();
                             if tmp { unsafe { libc::close(fd) }; }
